@@ -6,6 +6,7 @@ pub mod c02;
 pub mod c03;
 pub mod c06;
 pub mod c09;
+pub mod c10;
 pub mod c11;
 pub mod c12;
 
@@ -21,6 +22,7 @@ pub static REGISTRY: &[Entry] = &[
     Entry { id: "C03", run: c03::run_check, replay: c03::replay },
     Entry { id: "C06", run: c06::run_check, replay: c06::replay },
     Entry { id: "C09", run: c09::run_check, replay: c09::replay },
+    Entry { id: "C10", run: c10::run_check, replay: c10::replay },
     Entry { id: "C11", run: c11::run_check, replay: c11::replay },
     Entry { id: "C12", run: c12::run_check, replay: c12::replay },
 ];
